@@ -2,7 +2,7 @@
 
 ENGINES = [
     dict(name='symx', path='/verif/symx',
-         serves_properties=['C01', 'C03', 'C07'],
+         serves_properties=['C01', 'C02', 'C03', 'C06', 'C07'],
          kind_free_text='symbolic execution of the real emsarray functions on numpy/xarray object arrays of z3-backed '
                         'scalars; fork-by-re-execution path explorer; every path closed by z3 verdict queries and a '
                         'concrete replay of a model on the unmodified stack'),
@@ -43,6 +43,29 @@ CHECKS = {
         note='GEOS intersects is abstracted to a symbolic hit set per cell (STRtree contract: exactly the positions with '
              'geometry that satisfy the predicate, any order); counterexamples are realised with several real geometries '
              'and replayed on the unpatched stack.',
+    ),
+    'C02': dict(
+        engine='symx',
+        technique='symbolic execution of the real polygon/ravel/select pipeline on object arrays of z3 reals (value+NaN flag) behind shapely/STRtree contracts; z3 decides corner and value term identity per cell',
+        text='Every coordinate, bounds, node and data value is an arbitrary real (NaN where holes are allowed). For each '
+             'enumerated convention/shape/layout and every NaN pattern (forked) z3 shows: polygon n = corners of the cell with '
+             'native index wind_index(n), centre n = its centre, ravel(v)[n] = select_index(idx)[v] = v[idx], the spatial index '
+             'is built over all slots, holes are kept in place.',
+        design_ref='DESIGN.md section 4, C02',
+        note='shapely.polygons / is_valid(=True) / STRtree construction are contracts; floats are reals + NaN flag; shapes are '
+             'small and enumerated; each path witness is replayed on real shapely/STRtree.',
+    ),
+    'C06': dict(
+        engine='symx',
+        technique='symbolic execution of the real bounds/polygon/extent code with z3 (linear real arithmetic; nlsat for polygon validity conditions over symbolic corners)',
+        text='All coordinates symbolic. z3 shows each polygon ring equals the reference cell (midpoint-derived or stored bounds, '
+             'four bounds corners, four surrounding nodes, face nodes in listed order), missing coordinates <=> no polygon <=> '
+             'mask False, invalid cells (decided from the symbolic corners) dropped with one warning, read-only array, bounds = '
+             'bounding box of existing polygons, geometry = their union (point-membership query for the CFGrid1D box).',
+        design_ref='DESIGN.md section 4, C06',
+        note='GEOS validity is sandwiched between strictly-convex (valid) and bow-tie/collinear/zero-area (invalid); other cells '
+             'are pruned. For rectangles validity is exact and linear. Two genuine defects are listed in known_findings.json '
+             '(CFGrid1D.geometry with non-contiguous stored bounds; fast-path bounds include dropped invalid cells).',
     ),
 }
 
